@@ -1395,8 +1395,15 @@ class Interp:
         if ns.fact is not None:
             return st.assume(("le0", ns.fact), True) + st.assume(("le0", ns.fact), False)
         out = []
+        covered = IntSet.empty()
         for s in ns.sets:
             out += st.assume(("in", ns.atom, s), True)
+            covered = covered.union(s)
+        # the partition was computed by the code that raised the request, possibly on a state that
+        # is narrower than this one (a nested call refined it): keep what the partition leaves out
+        rest = st.aset(ns.atom).minus(covered)
+        if not rest.is_empty():
+            out += st.assume(("in", ns.atom, rest), True)
         return out
 
     def run_path(self, st, body, frame, bb, si, visits, work, results):
@@ -1623,13 +1630,62 @@ class Interp:
         callee = t["call"]
         if "indirect" in callee:
             fv = self.operand(st, frame, callee["indirect"])
+            if isinstance(fv, (VFn, VClosure)):
+                # a function pointer whose target is known (`wrap: fn(T) -> AisMessage` given a constructor)
+                args = [self.operand(st, frame, a) for a in t["args"]]
+                ctx = {"body": body, "bb": bb, "term": t, "frame": frame, "results": self._cur_results}
+                return self.apply_callable(st, fv, args, ctx)
             raise Unanalysable("indirect call through %r" % (fv,))
         args = [self.operand(st, frame, a) for a in t["args"]]
         ctx = {"body": body, "bb": bb, "term": t, "frame": frame, "results": self._cur_results}
         return self.call_fn(st, callee, args, ctx)
 
+    def rty(self, tix):
+        """type record with a type parameter of the current generic function replaced by its argument"""
+        t = self.f.types[tix]
+        if t["k"] == "param":
+            ge = self.genv_stack[-1] or {}
+            gv = ge.get(t["name"])
+            if gv is not None and "ty" in gv:
+                return self.f.types[gv["ty"]]
+        return t
+
+    def resolve_generic_trait_call(self, callee):
+        """`<T as Trait>::method` inside a generic function: with T known from the call's generic
+        arguments, the local impl of Trait for that type"""
+        if callee.get("resolved") is not None or not callee.get("trait"):
+            return None
+        ga = callee.get("args") or []
+        if not ga or "ty" not in ga[0]:
+            return None
+        st_ = self.f.types[ga[0]["ty"]]
+        if st_["k"] != "param":
+            return None
+        conc = self.rty(ga[0]["ty"])
+        if conc["k"] == "param":
+            return None
+        mname = callee["def"].rsplit("::", 1)[1]
+        tdef = callee["def"].rsplit("::", 1)[0]
+        wants = set(x.split("<")[0] for x in (conc.get("def"), conc.get("text"), conc.get("name")) if x)
+        cands = []
+        for b in self.f.bodies.values():
+            if not b["def"].endswith("::" + mname):
+                continue
+            it = b.get("impl_trait") or ""
+            if not it or it.split("<")[0] != tdef:
+                continue
+            selft = b.get("impl_self") or ""
+            if selft.split("<")[0] in wants:
+                cands.append(b)
+        if len(cands) == 1:
+            return cands[0]
+        return None
+
     def call_fn(self, st, callee, args, ctx):
         """callee: fn record from the facts.  -> list of (st, retval)"""
+        gb = self.resolve_generic_trait_call(callee)
+        if gb is not None:
+            return self.call_local(st, gb, args, ctx, None)
         target = callee
         r = callee.get("resolved")
         if r is not None and r["kind"] in ("item", "closure_once_shim", "fnptr_shim", "reify_shim"):
